@@ -7,6 +7,7 @@ import OmplModel.Model.CPDST
 import OmplModel.Model.Rng
 import OmplModel.Model.ControlExtra
 import OmplModel.Model.ControlSys
+import OmplModel.Model.ControlReconf
 import OmplModel.Driver.Common
 /-!
 Line-protocol driver for the control models (header `control`); grammar in harness/control.cpp.
@@ -76,6 +77,7 @@ def pKind : P Kind := do
   | "uni" => pure .uni
   | "dint" => pure .dint
   | "car" => pure .car
+  | "dpoint" => pure .dpoint
   | _ => failure
 
 def allLt (lo hi : Array F) : Bool := (List.range lo.size).all fun i => g lo i < g hi i
@@ -91,6 +93,9 @@ def pSys : P (Cfg F) := do
   let mx ← pN
   guardP (allLt lo hi && (List.range clo.size).all fun i => g clo i ≤ g chi i)
   guardP (dt > 1e-9 && (mn ≥ 1 || (mn == 0 && mx == 0)) && mn ≤ mx && mx ≤ 1000)
+  -- `dpoint`: DiscreteControlSpace, the range is (clo[0], chi[0]) as integers, the second component is 0
+  guardP (kind != .dpoint || (g clo 0 == (g clo 0).floor && g chi 0 == (g chi 0).floor && (g clo 0).abs ≤ 1e6 && (g chi 0).abs ≤ 1e6
+    && g clo 1 == 0 && g chi 1 == 0))
   -- control::SpaceInformation::setup(): `minSteps_ == 0 && maxSteps_ == 0` becomes [1, 10]
   let (mn, mx) := if mn == 0 && mx == 0 then (1, 10) else (mn, mx)
   pure { kind, lo, hi, clo, chi, dt, minSteps := mn, maxSteps := mx }
@@ -700,6 +705,182 @@ def opPdstPlay : P String := do
       else s!"status={statusName r2.status} nsol={nsol}"
     pure (first ++ " ### " ++ second ++ " | " ++ showPdst r2.final)
 
+/-! ### sampler histories and re-entrancy (`Model/ControlReconf.lean`) -/
+
+section reconf
+open OmplModel.ControlReconf
+
+def rawRng (r : Rng.Rng) : F × Rng.Rng := r.uniform01
+
+def pCBounds (disc : Bool) (dim : Nat) : P (CBounds F) := do
+  if disc then
+    let lo ← pI
+    let hi ← pI
+    guardP (lo ≤ hi && lo ≥ -1000000 && hi ≤ 1000000)
+    pure (.disc lo hi)
+  else
+    let lo ← pMany pF dim
+    let hi ← pMany pF dim
+    guardP ((lo.zip hi).all fun (l, h) => l ≤ h && l.abs < 1e12 && h.abs < 1e12)
+    pure (.real lo hi)
+
+partial def pSamplerOps (disc : Bool) (dim : Nat) (acc : Array (Op F Rng.Rng (Array F))) : P (Array (Op F Rng.Rng (Array F))) := do
+  match (← get) with
+  | [] => pure acc
+  | _ =>
+    guardP (acc.size < 4000)
+    match (← tok) with
+    | "B" => let b ← pCBounds disc dim; pSamplerOps disc dim (acc.push (.setBounds b))
+    | "S" => pSamplerOps disc dim (acc.push .sample)
+    | "N" => pSamplerOps disc dim (acc.push .sample)      -- ControlSampler::sampleNext = sample
+    | "K" =>
+      let a ← pN
+      let b ← pN
+      guardP (a ≤ b && b ≤ 1000000)
+      pSamplerOps disc dim (acc.push (.stepCount a b))
+    | "R" => let sd ← pN; pSamplerOps disc dim (acc.push (.realloc (Rng.Rng.create sd.toUInt64)))
+    | _ => failure
+
+def showOutS : Out F (Array F) → String
+  | .unit => ""
+  | .ctl (.real v) => " S" ++ String.join (v.map fun x => " " ++ floatBits x)
+  | .ctl (.disc v) => s!" S {v}"
+  | .steps k => s!" K {k}"
+  | .to _ => " ?"
+
+def samplerParams : Params F Rng.Rng (Array F) F :=
+  { drawCtl := sampleCtl rawRng, drawSteps := sampleSteps rawRng, step := fun _ s _ => s, valid := fun _ => true,
+    dist := fun _ _ => 0.0, lt := fun a b => decide (a < b), k := 1 }
+
+def opSampler : P String := do
+  let kind ← tok
+  guardP (kind == "real" || kind == "disc")
+  let disc := kind == "disc"
+  let dim ← if disc then pure 1 else pN
+  guardP (dim ≥ 1 && dim ≤ 6)
+  let b0 ← pCBounds disc dim
+  let lseed ← pKVNat "lseed"
+  expect "ops"
+  let ops ← pSamplerOps disc dim #[]
+  let st : St F Rng.Rng := { conf := { cb := b0, minSteps := 1, maxSteps := 1, dt := 1.0 }, gen := Rng.Rng.create lseed.toUInt64, cache := b0 }
+  pure ("draws" ++ String.join ((run samplerParams false st ops.toList).map showOutS))
+
+def ctlArr : Ctl F → Array F
+  | .real v => v.toArray
+  | .disc v => #[Float.ofInt v, 0.0]
+
+def cboundsOf (c : Cfg F) (l0 l1 h0 h1 : F) : CBounds F :=
+  if c.kind == .dpoint then .disc (Num.toInt l0) (Num.toInt h0) else .real [l0, l1] [h0, h1]
+
+partial def pDSamplerOps (c : Cfg F) (acc : Array (Op F Rng.Rng (Array F))) : P (Array (Op F Rng.Rng (Array F))) := do
+  match (← get) with
+  | [] => pure acc
+  | _ =>
+    guardP (acc.size < 2000)
+    match (← tok) with
+    | "B" =>
+      let l0 ← pF
+      let l1 ← pF
+      let h0 ← pF
+      let h1 ← pF
+      guardP (l0 ≤ h0 && l1 ≤ h1)
+      guardP (c.kind != .dpoint || (l0 == l0.floor && h0 == h0.floor && l0.abs ≤ 1e6 && h0.abs ≤ 1e6))
+      pDSamplerOps c (acc.push (.setBounds (cboundsOf c l0 l1 h0 h1)))
+    | "M" =>
+      let a ← pN
+      let b ← pN
+      guardP (a ≥ 1 && a ≤ b && b ≤ 1000)
+      pDSamplerOps c (acc.push (.setMinMax a b))
+    | "D" =>
+      let d ← pF
+      guardP (d > 1e-9 && d < 1e3)
+      pDSamplerOps c (acc.push (.setStep d))
+    | "R" => let sd ← pN; pDSamplerOps c (acc.push (.realloc (Rng.Rng.create sd.toUInt64)))
+    | "T" =>
+      let src ← pReals c.kind.nreals
+      let dst ← pReals c.kind.nreals
+      pDSamplerOps c (acc.push (.sampleTo src dst))
+    | _ => failure
+
+def showOutT : Out F (Array F) → String
+  | .to (some (u, n, s)) => s!" T {showReals (ctlArr u)} {n} {showReals s}"
+  | .to none => " T none"
+  | _ => ""
+
+def opDSampler : P String := do
+  let c ← pSys
+  let boxes ← pEnv
+  let k ← pKVNat "k"
+  let lseed ← pKVNat "lseed"
+  expect "ops"
+  guardP (k ≥ 1 && k ≤ 20)
+  let ops ← pDSamplerOps c #[]
+  let P : Params F Rng.Rng (Array F) F :=
+    { drawCtl := sampleCtl rawRng, drawSteps := sampleSteps rawRng,
+      step := fun dt s u => ControlSys.step c.kind dt s (ctlArr u),
+      valid := ControlSys.valid c eps boxes, dist := ControlSys.dist c.kind, lt := fun a b => decide (a < b), k := k }
+  let cb0 := cboundsOf c (g c.clo 0) (g c.clo 1) (g c.chi 0) (g c.chi 1)
+  let st : St F Rng.Rng := { conf := { cb := cb0, minSteps := c.minSteps, maxSteps := c.maxSteps, dt := c.dt },
+                             gen := Rng.Rng.create lseed.toUInt64, cache := cb0 }
+  pure ("dsampler" ++ String.join ((run P false st ops.toList).map showOutT))
+
+/-- one CALL of a `nest` line: the result text (as a pwv/prop line prints it) and the number of validity queries and
+propagator calls the call makes -/
+def pCall (c : Cfg F) (boxes : List (Array F × Array F)) : P (String × Nat × Nat) := do
+  let w ← tok
+  guardP (w == "pwv" || w == "prop")
+  let whileValid := w == "pwv"
+  let f ← pForm
+  let steps ← pI
+  guardP (steps ≤ 10000 && steps ≥ -10000)
+  expect "st"
+  let st ← pReals c.kind.nreals
+  expect "ct"
+  let ct ← pReals 2
+  let s0 : TS := (st, 0)
+  let stepB := tsStep c
+  let valid := tsValid c (.env boxes)
+  let n := steps.natAbs
+  if whileValid then
+    match f with
+    | .single =>
+      let r := pwvI stepB valid s0 ct steps
+      let q := min (r.1 + 1) n
+      pure (s!"r={r.1} res={showReals r.2.1} vec=-", q, q)
+    | .alias =>
+      let r := pwvAlias (stepB (decide (steps < 0))) valid s0 ct n
+      let q := min (r.1 + 1) n
+      pure (s!"r={r.1} res={showReals r.2.1} vec=-", q, q)
+    | .vec alloc m =>
+      let r := pwvVecI stepB valid s0 ct steps (if alloc then [] else sentinels c m) alloc
+      let n' := if alloc then n else min n m
+      let q := min (r.1 + 1) n'
+      pure (s!"r={r.1} res=- {showVec r.2}", q, q)
+  else
+    match f with
+    | .single | .alias =>
+      let r := propagateI stepB s0 ct steps
+      pure (s!"res={showReals r.1} vec=-", 0, n)
+    | .vec alloc m =>
+      let r := propagateVec (stepB (decide (steps < 0))) s0 ct n (if alloc then [] else sentinels c m) alloc
+      pure (s!"res=- {showVec r}", 0, if alloc then n else min n m)
+
+/-- `nest`: the model is re-entrant by construction (`pwv_reentrant`, `pwv_nested_both_alone`): each call alone; the nested
+call runs iff the outer call makes an `at`-th invocation of the hooked callback -/
+def opNest : P String := do
+  let c ← pSys
+  let boxes ← pEnv
+  let h ← tok
+  guardP (h == "hook=v" || h == "hook=p")
+  let at_ ← pKVNat "at"
+  let outer ← pCall c boxes
+  let inner ← pCall c boxes
+  atEnd
+  let cnt := if h == "hook=v" then outer.2.1 else outer.2.2
+  pure (outer.1 ++ " ## " ++ (if at_ < cnt then inner.1 else "not-run"))
+
+end reconf
+
 def init (ts : List String) : Option Unit :=
   match ts with
   | ["control"] => some ()
@@ -724,6 +905,9 @@ def step (_ : Unit) (ts : List String) : Unit × String :=
   | "estplay" :: rest => ((), runP opEstPlay rest)
   | "kpieceplay" :: rest => ((), runP opKpiecePlay rest)
   | "pdstplay" :: rest => ((), runP opPdstPlay rest)
+  | "sampler" :: rest => ((), runP opSampler rest)
+  | "dsampler" :: rest => ((), runP opDSampler rest)
+  | "nest" :: rest => ((), runP opNest rest)
   | _ => ((), "bad-op")
 
 end OmplModel.Driver.ControlDrv
